@@ -19,6 +19,7 @@ PLAN = {
     "c09_stack": ["asan"],
     "c14_isolation": ["asan"],
     "c15_state": ["asan"],
+    "c10_exc": ["asan"],
     "c13_threads": ["tsan"],
 }
 
